@@ -202,6 +202,9 @@ class E:
             arms = " ".join(f"when {self.kids[i].render(r)} > {i} then {self.kids[i + 1].render(r)}" for i in range(0, len(self.kids), 2))
             return f"case {arms} else 0 end"
         if k == "col":
+            qf = getattr(self, "qfull", None)
+            if qf and self.q:
+                return ".".join(r.ident(x) for x in qf.split(".")) + "." + r.ident(self.name)  # schema.table.column
             return (r.ident(self.q) + "." if self.q else "") + r.ident(self.name)
         if k == "lit":
             return self.name
@@ -230,6 +233,8 @@ class E:
         t = {"expr." + self.kind} if self.kind not in ("col", "lit") else set()
         if self.kind == "col":
             t.add("col.qualified" if self.q else "col.unqualified")
+            if self.q and getattr(self, "qfull", None):
+                t.add("col.qualified_by_full_name")
         if self.kind == "scalar":
             t |= {"select.scalar_subquery"} | self.query.tags()
         for k in self.kids:
@@ -910,7 +915,11 @@ class Gen:
                 name = r.choice(names)
         if len(rels) == 1 and r.random() < 0.5:
             return col(name)
-        return col(name, rel.key())
+        e = col(name, rel.key())
+        if rel.kind == "base" and rel.schema and not rel.alias and self.aux.random() < 0.3 and \
+                sum(1 for x in rels if x.kind == "base" and x.name == rel.name) == 1:
+            e.qfull = f"{rel.schema}.{rel.name}"  # an un-aliased schema-qualified table may be named in full: sa.tb.c
+        return e
 
     def items(self, rels, n, depth=1, env_names=None, allow_star=True, allow_unres=True, allow_lit=True):
         r = self.rnd
@@ -1562,6 +1571,8 @@ def alpha_rename(stmt, rnd, mode="rename", pool=()):
     for e in exprs:
         if e.kind == "col" and e.q in mapping:
             e.q = mapping[e.q]
+            if mode == "add_alias" and getattr(e, "qfull", None):
+                e.qfull = None  # once aliased, a table is no longer addressable by its full name
     for it in stars:
         if it.star_q in mapping:
             it.star_q = mapping[it.star_q]
